@@ -233,19 +233,32 @@ class C04(RecorderProp):
         if case.get('explore') is None:
             r = T.run_threads_case(case)
             r['_explored'] = 1
-            r['_bad_schedule'] = None if (r['results'] == want and r['main'] == [['ret', 'done']] and r['outcome'] == 'finished') else r['_choices']
+            r['_bad_schedule'] = None if r['outcome'] == 'skipped' or (r['results'] == want and r['main'] == [['ret', 'done']] and r['outcome'] == 'finished') else r['_choices']
             return r
 
+        stuck = [0]
+
         def batch(prefixes):
-            return [T.run_threads_case(dict(case, schedule=p, explore=None)) for p in prefixes]
-        explored, first_bad, last = 0, None, None
+            out = []
+            for p in prefixes:
+                if stuck[0] >= 3:
+                    # (a tree whose locks get in the way of the controlled schedule: each such schedule costs a watchdog period)
+                    out.append(dict(out[-1]))
+                    continue
+                out.append(T.run_threads_case(dict(case, schedule=p, explore=None)))
+                stuck[0] += out[-1]['outcome'] in ('skipped', 'blocked')
+            return out
+        explored, first_bad, last, skipped = 0, None, None, 0
         for prefix, cost, res in S.explore(lambda ps: [dict(x, decisions=x['_decisions']) for x in batch(ps)], case['explore'],
                                            max_runs=case.get('max_runs')):
             if res is None:
                 break
             explored += 1
             last = res
-            if res['results'] != want or res['main'] != [['ret', 'done']] or res['outcome'] != 'finished':
+            skipped += res['outcome'] == 'skipped'
+            if skipped >= 3:
+                break       # (a tree whose locks get in the way of the controlled schedule: each such schedule costs a watchdog period)
+            if res['outcome'] != 'skipped' and (res['results'] != want or res['main'] != [['ret', 'done']] or res['outcome'] != 'finished'):
                 first_bad = res
                 first_bad['_bad_schedule'] = res['_choices']
                 break
@@ -296,7 +309,7 @@ class C04(RecorderProp):
             return ['odd-value:' + case['odd'], 'odd-value-site:' + case['site']]
         if case.get('kind') != 'threads':
             return super(C04, self).features(case, impl)
-        return ['threads', 'threads:main=' + case['main'], 'threads:schedules-explored=%d' % impl.get('_explored', 1)] + \
+        return ['threads', 'threads:main=' + case['main']] + (['threads:schedule-skipped(lock held by a pre-empted thread)'] if impl.get('outcome') == 'skipped' else []) + [ 'threads:schedules-explored=%d' % impl.get('_explored', 1)] + \
                (['threads:exhaustive<=%d-preemptions' % case['explore']] if case.get('explore') is not None else ['threads:random-schedule'])
 
     def shrink(self, case):
@@ -321,8 +334,12 @@ class C04(RecorderProp):
         if case.get('kind') == 'threads':
             want = T.expected(case)
             fails = []
+            if impl['outcome'] == 'skipped':
+                return []
             if impl['outcome'] != 'finished':
-                fails.append('threads: the run ended in %s under schedule %r' % (impl['outcome'], impl['_choices']))
+                fails.append('threads: the run ended in %s under schedule %r%s'
+                             % (impl['outcome'], impl['_choices'], (': ' + impl['_blocked_at'] + ' - the operation / interception does not '
+                                                                    'return to its caller while another thread is held') if impl.get('_blocked_at') else ''))
             if impl['results'] != want:
                 fails.append('threads (main: %s): worker calls were handed %r, their bodies produce %r; schedule (choices at the '
                              'decision points) %r' % (case['main'], impl['results'], want, impl.get('_bad_schedule') or impl['_choices']))
